@@ -62,6 +62,12 @@ class Hist:
         self.npk += 1
         return self.npk - 1
 
+    def var_tls(self, k):
+        self.toks.append('V:%d:tls' % k)
+        self.pk_meta.append(dict(kind='tls-repack', base=self.pk_meta[k]['base']))
+        self.npk += 1
+        return self.npk - 1
+
     def sleep(self, d):
         assert d >= 0
         self.toks.append('S:%d' % d)
@@ -80,6 +86,11 @@ class Hist:
         self.toks.append('C:%d:%d' % (k, n))
         self.times.append(self.now)
 
+    def flood(self, k, n):
+        """n first packets with distinct fresh randoms (packet k's bytes otherwise): refused, but remembered"""
+        self.toks.append('F:%d:%d' % (k, n))
+        self.times.append(self.now)
+
     def det(self, k, n):
         """n presentations overlapping deterministically: the first is parked inside registerRandom's clock read
         (WorldState.Now is the seam), the others are started meanwhile, then the first is released"""
@@ -90,7 +101,7 @@ class Hist:
         return '%s %d %s' % (self.id, self.start, ' '.join(self.toks))
 
     def ops(self):
-        return [t for t in self.toks if t[0] in 'SPCD']
+        return [t for t in self.toks if t[0] in 'SPCDF']
 
 
 def gen_histories(ctx):
@@ -116,14 +127,18 @@ def gen_histories(ctx):
         if rng.random() < 0.5:   # bring the first clean-up close
             h.sleep(PERIOD - rng.choice([10, 100, 200, 359, 360, 361, 400, 1000]) * S - rng.randrange(S))
         pk = []
+        tr = rng.choice(['tls', 'ws', 'mixed'])         # transport of the history: TLS ClientHello / WebSocket Hidden header / both
         for _ in range(rng.randrange(3, 14)):
             r = rng.random()
             if r < 0.3 or not pk:
                 off = rng.choice([0, 0, 1, -1, 100, -100, 179, -179, 180, -180, 181, -181, 178, 300, -300, 10**6])
-                pk.append(h.new('tls', h.now // S + off))
+                pk.append(h.new(tr if tr != 'mixed' else rng.choice(['tls', 'ws']), h.now // S + off))
                 h.present(pk[-1])
             elif r < 0.6:
-                h.present(rng.choice(pk))
+                k0 = rng.choice(pk)
+                if tr == 'mixed' and rng.random() < 0.5:    # the captured credentials replayed through the other transport
+                    k0 = h.var_ws(k0) if rng.random() < 0.5 else h.var_tls(k0)
+                h.present(k0)
             else:
                 d = rng.choice([0, 1, 999999999, S, 60 * S, 179 * S, 180 * S, 181 * S, 359 * S, 360 * S, 361 * S,
                                 rng.randrange(400 * S), rng.randrange(PERIOD), PERIOD, PERIOD + 1, PERIOD - 1, 2 * PERIOD])
@@ -149,7 +164,7 @@ def gen_histories(ctx):
                     if t < h.start:
                         hs.pop(); continue
                     h.sleep_to(t)
-                    k = h.new('tls', s + tsoff)
+                    k = h.new(('tls', 'ws')[len(hs) % 2], s + tsoff)
                     h.present(k)
                     if refresh:
                         h.sleep(refresh * S)
@@ -169,7 +184,7 @@ def gen_histories(ctx):
         for tsoff in [0, 179, -179]:
             h = begin('f')
             h.sleep_to(h.start + PERIOD - gap)
-            k = h.new('tls', h.now // S + tsoff)
+            k = h.new(('tls', 'ws')[len(hs) % 2], h.now // S + tsoff)
             h.present(k)
             h.sleep(gap)
             h.present(k)
@@ -179,21 +194,21 @@ def gen_histories(ctx):
     # 4. N simultaneous presentations
     for n in (list(range(2, 65)) if not q else list(range(2, 65, 2)) + [63]):
         h = begin('c')
-        k = h.new('tls', h.now // S + rng.choice([0, 10, -10]))
+        k = h.new(('tls', 'ws')[n % 3 == 0], h.now // S + rng.choice([0, 10, -10]))
         h.conc(k, n)
         h.present(k)
         if n % 8 == 0:
-            k2 = h.new('tls', h.now // S)
+            k2 = h.new(('ws', 'tls')[n % 3 == 0], h.now // S)
             h.present(k2)
             h.conc(k2, n)
         end(h)
     # 4b. the same, deterministically through the clock seam: the first presenter parked between lookup and
     #     insertion (inside registerRandom's clock read), the others arriving meanwhile; fresh packet / packet
     #     seen before / packet whose entry has been evicted; followed by a sequential presentation
-    for n in (2, 3, 5, 9):
+    for n, trd in ((2, 'tls'), (3, 'ws'), (5, 'tls'), (9, 'ws'), (2, 'ws'), (3, 'tls')):
         for shape in ('fresh', 'seen', 'after-sleep'):
             h = begin('d')
-            k = h.new('tls', h.now // S + rng.choice([0, 10, -10]))
+            k = h.new(trd, h.now // S + rng.choice([0, 10, -10]))
             if shape == 'seen':
                 h.present(k)
             if shape == 'after-sleep':
@@ -203,9 +218,9 @@ def gen_histories(ctx):
             h.present(k)
             end(h)
     # 5. every single-bit variant of the 32-byte random; original first / variant first
-    for order in ('orig-first', 'var-first'):
+    for order, trb in (('orig-first', 'tls'), ('var-first', 'tls'), ('orig-first', 'ws'), ('var-first', 'ws')):
         h = begin('b')
-        k = h.new('tls', h.now // S)
+        k = h.new(trb, h.now // S)
         vs = [h.var_bits(k, [b]) for b in range(256)]
         if order == 'orig-first':
             h.present(k)
@@ -221,10 +236,14 @@ def gen_histories(ctx):
     # 6. random multi-bit variants of the random, flips anywhere in the packet, the WebSocket re-packaging
     for _ in range(12 if q else 200):
         h = begin('m')
-        k = h.new('tls', h.now // S + rng.choice([0, 50, -50]))
+        k = h.new(('tls', 'ws')[len(hs) % 2], h.now // S + rng.choice([0, 50, -50]))
         vs = []
         for _ in range(12):
             r = rng.random()
+            if r < 0.12:      # through the other transport, with or without bit 255 flipped there
+                v = h.var_tls(k) if rng.random() < 0.5 else h.var_ws(k)
+                vs.append(h.var_bits(v, [255]) if rng.random() < 0.5 else v)
+                continue
             if r < 0.35:
                 bits = sorted(set(rng.sample(range(256), rng.randrange(2, 6))) | ({255} if rng.random() < 0.6 else set()))
                 if bits == [255]:
@@ -250,12 +269,100 @@ def gen_histories(ctx):
         a = h.new('garbage')
         b = h.new('badtag', h.now // S)
         c = h.new('tls', h.now // S)
-        for _ in range(8):
-            h.present(rng.choice([a, b, c]))
+        d = h.new('wsbadtag', h.now // S)
+        e = h.new('ws', h.now // S)
+        for _ in range(10):
+            h.present(rng.choice([a, b, c, d, e]))
             if rng.random() < 0.3:
                 h.sleep(rng.choice([S, 200 * S, PERIOD]))
         end(h)
+    # 7b. floods of distinct fresh randoms between a sighting and its replay, the cache size crossing every power of two
+    #     up to 2^10 (+-1); the model follows packet by packet.  (The large ones, up to 2^17+1, run in their own process:
+    #     big_floods.)
+    for trs in (('tls',), ('ws',), ('tls', 'ws')):
+        h = flood_history('F%d' % len(hs), (cur[0] // S + 1) * S + rng.choice([0, 1, 999999999]), rng, range(2, 11), trs, 'F')
+        hs.append(h)
+        end(h)
+    # 8. captured on one transport, presented again on either transport, plain and with bit 255 of the random
+    #    flipped THERE (the canonical cache key must not depend on which parser handled the packet), every order
+    import itertools
+    for cap in ('tls', 'ws'):
+        for first, second in itertools.product(('same', 'other', 'same255', 'other255'), repeat=2):
+            if first == second == 'same':
+                continue
+            h = begin('x')
+            k = h.new(cap, h.now // S + rng.choice([0, 100, -100]))
+
+            def form(f):
+                v = k
+                if f.startswith('other'):
+                    v = h.var_ws(k) if cap == 'tls' else h.var_tls(k)
+                if f.endswith('255'):
+                    v = h.var_bits(v, [255])
+                return v
+            a, b = form(first), form(second)
+            h.present(a)
+            if rng.random() < 0.5:
+                h.sleep(rng.choice([1, S, 100 * S]))
+            h.present(b)
+            h.present(k)
+            end(h)
     return hs
+
+
+def fold_flood(mo, ops):
+    """the model presents a flood packet by packet: fold its observations into the driver's f<a>,<r>,<o>/<size>"""
+    if mo is None or not any(t[0] == 'F' for t in ops):
+        return mo
+    toks = mo.split()
+    out, i = [], 0
+    for t in ops:
+        if t[0] != 'F':
+            out.append(toks[i] if i < len(toks) else '?'); i += 1
+            continue
+        n = int(t.split(':')[2])
+        part = toks[i:i + n]; i += n
+        cnt = {'a': 0, 'r': 0, 'o': 0}
+        for x in part:
+            cnt[x[0]] = cnt.get(x[0], 0) + 1
+        out.append('f%d,%d,%d/%s' % (cnt['a'], cnt['r'], cnt['o'], part[-1].split('/')[1] if part else '?'))
+    return ' '.join(out)
+
+
+MAX_MODEL_FLOOD = 1100      # the model's cache is an association list: larger floods are judged by the oracle only
+
+
+def flood_history(hid, start, rng, ks, transports, kind):
+    """Staged flood: sightings G_0.. (accepted) at second T; from T+1 s on, floods of distinct fresh randoms that take the
+    cache size across 2^k-1, 2^k, 2^k+1 for k in ks; after each stage ONE not yet replayed G is presented again (same
+    packet, or its bit-255 copy, or through the other transport) - inside its window, so it must be refused; at the end
+    (T+3 s) a new genuine packet is accepted once and only once, and every G is still refused."""
+    h = Hist(hid, start, kind)
+    targets = sorted(set(t for k in ks for t in (2**k - 1, 2**k, 2**k + 1)))
+    gs = [h.new(transports[i % len(transports)], h.now // S + rng.choice([0, 60, 170, -170])) for i in range(len(targets) + 1)]
+    for g in gs:
+        h.present(g)
+    size = len(gs)
+    h.sleep(S)
+    for i, c in enumerate(targets):
+        if c > size:
+            h.flood(gs[0], c - size)
+            size = c
+        g = gs[i]
+        form = rng.choice(['same', 'same', '255', 'other'])
+        if form == '255':
+            g = h.var_bits(g, [255])
+        elif form == 'other':
+            g = h.var_ws(g) if h.pk_meta[g]['kind'] == 'tls' else h.var_tls(g)
+        h.present(g)
+        if i % 5 == 4:
+            h.sleep(rng.choice([1, S // 10]))
+    h.sleep(2 * S)
+    n = h.new(transports[0], h.now // S)
+    h.present(n); h.flood(n, 3); h.present(n)
+    for g in gs:
+        h.present(g)
+    return h
 
 
 DET_PATTERNS = {}     # history id -> {op index: per presenter P parked in the clock read | L waiting for a lock | F finished}
@@ -293,6 +400,17 @@ def model_line(h_id, start, facts, op_toks, mode=None):
         p = f.split(':')           # K:parses:random:ts:block
         ks.append('K:%s:%s:%s' % (p[1], p[2], p[3]))
     op_toks = [('C' + t[1:]) if t[0] == 'D' else t for t in op_toks]     # the model's step for both: C08_concurrent
+    if any(t[0] == 'F' for t in op_toks):
+        # a flood = that many presentations of packets that parse, do not authenticate and have distinct randoms
+        out, ctr = [], 0
+        for t in op_toks:
+            if t[0] != 'F':
+                out.append(t); continue
+            for _ in range(int(t.split(':')[2])):
+                ctr += 1
+                ks.append('K:1:%016x%016xf1%030x:-' % (ctr, (1 << 64) - 1 - ctr, 0))
+                out.append('P:%d' % (len(ks) - 1))
+        op_toks = out
     return '%s %d %s%s %s' % (h_id, start, ('M:%s ' % mode) if mode else '', ' '.join(ks), ' '.join(op_toks))
 
 
@@ -306,7 +424,7 @@ def oracle(facts, op_toks, obs):
         if p[0] == 'S':
             continue
         k = int(p[1])
-        n = 1 if ob == 'a' else (int(ob[1:].split(',')[0]) if ob.startswith('c') else 0)
+        n = 1 if ob == 'a' else (int(ob[1:].split(',')[0]) if ob[0] in 'cf' else 0)
         if n == 0 or block[k] == '-':
             continue
         prev = acc.get(block[k], [])
@@ -350,7 +468,7 @@ def check_case(ctx, line, tag):
     if cid not in res:
         return None, None
     facts, obs = res[cid]
-    ops = [t for t in line.split()[2:] if t[0] in 'SPCD']
+    ops = [t for t in line.split()[2:] if t[0] in 'SPCDF']
     return oracle(facts, ops, obs), res[cid]
 
 
@@ -359,8 +477,8 @@ def compact(line):
     f = line.split()
     head, toks = f[:2], f[2:]
     decl = [t for t in toks if t[0] in 'NV']
-    ops = [t for t in toks if t[0] in 'SPCD']
-    used = set(int(t.split(':')[1]) for t in ops if t[0] in 'PCD')
+    ops = [t for t in toks if t[0] in 'SPCDF']
+    used = set(int(t.split(':')[1]) for t in ops if t[0] in 'PCDF')
     for i in range(len(decl) - 1, -1, -1):          # a variant needs its base
         if i in used and decl[i][0] == 'V':
             used.add(int(decl[i].split(':')[1]))
@@ -373,7 +491,7 @@ def compact(line):
             nd.append(d)
     no = []
     for t in ops:
-        if t[0] in 'PCD':
+        if t[0] in 'PCDF':
             p = t.split(':'); p[1] = str(remap[int(p[1])]); t = ':'.join(p)
         no.append(t)
     return ' '.join(head + nd + no)
@@ -385,7 +503,7 @@ def shrink(ctx, line, budget=8):
     f = line.split()
     head, toks = f[:2], f[2:]
     decl = [t for t in toks if t[0] in 'NV']
-    ops = [t for t in toks if t[0] in 'SPCD']
+    ops = [t for t in toks if t[0] in 'SPCDF']
     n = [0]
 
     def run(cand):
@@ -424,6 +542,65 @@ def shrink(ctx, line, budget=8):
     return compact(' '.join(head + decl + ops))
 
 
+def shrink_flood(ctx, line, r=None):
+    """first acceptance, then the sleeps and ONE merged flood per run of floods, then the violating presentation"""
+    f = line.split()
+    head, toks = f[:2], f[2:]
+    decl = [t for t in toks if t[0] in 'NV']
+    ops = [t for t in toks if t[0] in 'SPCDF']
+    if r is None:
+        return line
+    first, viol = r[2], r[3]
+    mid = []
+    # the presentations that are dropped made cache entries too: the merged flood makes as many instead
+    pad = len([t for t in ops[:first] + ops[first + 1:viol] if t[0] in 'PCD'])
+    for t in ops[first + 1:viol]:
+        if t[0] not in 'SF':
+            continue
+        if t[0] == 'F' and pad:
+            a = t.split(':')
+            t = 'F:%s:%d' % (a[1], int(a[2]) + pad)
+            pad = 0
+        if mid and mid[-1][0] == t[0] == 'S':
+            mid[-1] = 'S:%d' % (int(mid[-1][2:]) + int(t[2:]))
+        elif mid and mid[-1][0] == t[0] == 'F':
+            a = mid[-1].split(':')
+            mid[-1] = 'F:%s:%d' % (a[1], int(a[2]) + int(t.split(':')[2]))
+        else:
+            mid.append(t)
+    return compact(' '.join(head + decl + [ops[first]] + mid + [ops[viol]]))
+
+
+def big_floods(ctx, dense=False):
+    """the large staged floods (cache size crossing 2^10 .. 2^17, +-1), each ~131 000 presentations of ~80 us"""
+    import random
+    rng = random.Random(ctx.seed * 7919 + 8)
+    combos = [('ws', 'tls')] if (ctx.quick() and not dense) else [('ws', 'tls'), ('tls', 'ws'), ('ws',), ('tls',)]
+    return [flood_history('FL%d' % i, T0 + (3000 + 200 * i) * S + rng.choice([0, 1, 999999999]), rng, range(10, 18), trs, 'F')
+            for i, trs in enumerate(combos)]
+
+
+def judge_floods(hs, impl):
+    """-> (oracle failures [(h, (sig, what, i, j))], size errors [text], presentations)"""
+    bad, sizes, total = [], [], 0
+    for h in hs:
+        if h.id not in impl:
+            continue
+        facts, obs = impl[h.id]
+        ops = h.ops()
+        r = oracle(facts, ops, obs)
+        if r:
+            bad.append((h, r))
+        prev = 0
+        for t, (ob, sz, _) in zip(ops, obs):
+            if t[0] == 'F':
+                n = int(t.split(':')[2]); total += n
+                if sz != prev + n and not r:
+                    sizes.append('%s: after %s the cache holds %d entries, %d before + %d distinct randoms presented' % (h.id, t, sz, prev, n))
+            prev = sz
+    return bad, sizes, total
+
+
 def correspondence(ctx, verdict, pr):
     res = dict(broken=[])
     hs = []
@@ -444,6 +621,11 @@ def correspondence(ctx, verdict, pr):
         race_out['r'] = run_go(ctx, cl, 'race', race=True)
     th = threading.Thread(target=race_run)
     th.start()
+    # the large floods in their own process, alongside
+    fl_hs = big_floods(ctx)
+    flood_out = {}
+    thf = threading.Thread(target=lambda: flood_out.update(r=run_go(ctx, [h.line() for h in fl_hs], 'flood')))
+    thf.start()
     rc, log, impl, done = run_go(ctx, lines, 'cases')
     if rc != 0 or not done:
         res['broken'].append(('Go driver TestVerifC08 failed to build or run (rc=%d, finished=%s)' % (rc, done), log[-3000:]))
@@ -495,7 +677,7 @@ def correspondence(ctx, verdict, pr):
             if m['kind'] == 'rbits' and m['bits'] == [255] and p[3] == '-':
                 bind_viol.append((h.id, k, 'bit 255 variant does not authenticate'))
         # 4. model == implementation
-        mo = model.get(h.id)
+        mo = fold_flood(model.get(h.id), ops)
         io = ' '.join('%s/%d' % (o[0], o[1]) for o in obs)
         if mo is not None and mo != io:
             mism.append((h.id, h.line(), io, mo))
@@ -513,6 +695,22 @@ def correspondence(ctx, verdict, pr):
                 orc += 1
                 verdict.oracle_failure(r[0], 'C08 oracle (-race run): ' + r[1], dict(case=h.line(), implementation=rimpl[h.id]))
                 break
+    thf.join()
+    frc, flog, fimpl, fdone = flood_out.get('r', (1, 'flood run did not start', {}, False))
+    if frc != 0 or not fdone:
+        res['broken'].append(('Go driver TestVerifC08 (large floods) failed (rc=%d)' % frc, flog[-3000:]))
+    fbad, fsizes, fpres = judge_floods(fl_hs, fimpl)
+    for h, r in fbad[:1]:
+        orc += 1
+        small = shrink_flood(ctx, h.line(), r)
+        r2, got = check_case(ctx, small, 'confirm_flood')
+        if not r2:
+            small, r2, got = h.line(), r, fimpl[h.id]
+        verdict.oracle_failure(r2[0], 'C08 oracle (flood of distinct fresh randoms between a sighting and its replay): ' + r2[1],
+                               dict(case=small if len(small) < 4000 else small[:4000] + ' ...', original_case=h.line()[:3000], implementation=str(got)[:3000],
+                                    how='python3 tools/check.py C08 --replay <this file>'))
+    if fsizes:
+        res['broken'].append(('replay memory does not remember every first packet (model: registerRandom inserts unconditionally)', '\n'.join(fsizes[:5])))
     if bind_viol:
         res['broken'].append(('hypothesis sealed_block_binds contradicted by the implementation', repr(bind_viol[:5])))
     if time_mism and rc == 0:
@@ -525,11 +723,12 @@ def correspondence(ctx, verdict, pr):
     distinct = set(' '.join(t for t in h.toks) + str(h.start % S) for h in hs if len(h.ops()) >= 2)
     verdict.cov.update(
         evaluations=len(hs), distinct_nontrivial=len(distinct), steps=nsteps,
-        rule='seeded histories on the real State under virtual time: random walks (presentations / replays / sleeps 0 ns..24 h, clean-ups at every phase), the retention edge (sighting second s, clean-up at (s+360) s + {-1,0,+1} ns x sub-second phase x timestamp offset +180/+179/0/-179 x refreshing replay), F1 shape, N=2..64 simultaneous presentations (also under -race) and N=2..9 presentations overlapping deterministically through the clock seam (first presenter held between lookup and insertion), all 256 single-bit variants of the random (both orders), random multi-bit / whole-packet flips / WebSocket re-packaging, malformed stream. distinct = distinct token lists with >= 2 ops',
+        rule='seeded histories on the real State under virtual time: random walks (presentations / replays / sleeps 0 ns..24 h, clean-ups at every phase), the retention edge (sighting second s, clean-up at (s+360) s + {-1,0,+1} ns x sub-second phase x timestamp offset +180/+179/0/-179 x refreshing replay), F1 shape, N=2..64 simultaneous presentations (also under -race) and N=2..9 presentations overlapping deterministically through the clock seam (first presenter held between lookup and insertion), all 256 single-bit variants of the random (both orders), random multi-bit / whole-packet flips, malformed stream - every family on BOTH transports (TLS ClientHello and WebSocket Hidden header) and across them (captured on one, presented again on the other, with and without bit 255 flipped there, every order). distinct = distinct token lists with >= 2 ops',
         samples=[hs[0].line()[:300], [h for h in hs if h.kind == 'e'][0].line()[:300], [h for h in hs if h.kind == 'c'][0].line()[:300]],
         traces_validated_against_impl=len(impl), mismatches=len(mism), oracle_failures=orc,
         input_distribution=dict(kinds=vlib.summarize_dist(kinds), outcomes=outcomes_seen), corpus_cases=len(corpus_lines),
         race_run=dict(histories=len(rimpl), rc=rrc), exhaustive=False,
+        large_floods=dict(histories=len(fimpl), presentations=fpres, what='sightings, then floods of distinct fresh randoms taking the cache across 2^k-1, 2^k, 2^k+1 for k=10..17 with a not yet replayed sighting presented again after every stage (same packet / bit-255 copy / other transport), then a new sighting; oracle only (the model follows the small ones, k<=10, packet by packet)'),
         deterministic_overlap=dict(histories=len([h for h in hs if h.kind == 'd']),
                                    what='D:<k>:<n>: the first presenter is parked inside the clock read of registerRandom (State.WorldState.Now is the seam; in the unchanged code it holds usedRandomM there), n-1 further presentations of the same packet are started meanwhile and watched until finished or waiting for a lock, then the first is released; patterns per presenter before the release (P parked, L waiting for the lock, F finished)',
                                    patterns=vlib.summarize_dist([p for d in DET_PATTERNS.values() for p in d.values()])))
@@ -548,9 +747,12 @@ def search(ctx, verdict, problems):
         k = h.new('tls', h.now // S + 179)
         h.present(k); h.sleep(gap); h.present(k); h.sleep(S); h.present(k)
         cands.append(h)
-    h = Hist('srchb', base, 'b')
-    k = h.new('tls', h.now // S); v = h.var_bits(k, [255]); h.present(k); h.present(v)
-    cands.append(h)
+    for trb in ('tls', 'ws'):
+        h = Hist('srchb' + trb, base, 'b')
+        k = h.new(trb, h.now // S); v = h.var_bits(k, [255]); h.present(k); h.present(v)
+        o = h.var_ws(k) if trb == 'tls' else h.var_tls(k)
+        h.present(o); h.present(h.var_bits(o, [255]))
+        cands.append(h)
     # deterministic overlap first (clock seam), then the statistical one
     for n in (2, 3, 8):
         h = Hist('srchd%d' % n, base, 'd')
@@ -569,6 +771,20 @@ def search(ctx, verdict, problems):
             verdict.oracle_failure(r[0], 'C08 oracle (search): ' + r[1], dict(case=h.line(), implementation=got))
             found = True
             break
+    if not found:
+        # cache pressure: staged floods of distinct fresh randoms between sightings and their replays (2^10 .. 2^17, +-1)
+        fl = big_floods(ctx, dense=True)
+        rc, log, res, done = run_go(ctx, [h.line() for h in fl], 'search_flood')
+        fbad, fsizes, fpres = judge_floods(fl, res)
+        for h, r in fbad[:1]:
+            small = shrink_flood(ctx, h.line(), r)
+            r2, got = check_case(ctx, small, 'search_flood_confirm')
+            if not r2:
+                small, r2, got = h.line(), r, res[h.id]
+            verdict.oracle_failure(r2[0], 'C08 oracle (search, flood of distinct fresh randoms between a sighting and its replay): ' + r2[1],
+                                   dict(case=small[:4000], original_case=h.line()[:3000], implementation=str(got)[:3000]))
+            found = True
+        ctx.notes.append('search: %d large flood histories, %d presentations, %d oracle failures' % (len(fl), fpres, len(fbad)))
     if not found:
         # a window the clock seam does not reach (no clock read inside it) can only be hit by chance: many
         # batches of simultaneous presentations, plain and under the race detector (which changes the timing)
@@ -603,7 +819,7 @@ def replay(ctx, verdict):
     print('history:', line)
     print('implementation:', got)
     if got:
-        ops = [t for t in line.split()[2:] if t[0] in 'SPCD']
+        ops = [t for t in line.split()[2:] if t[0] in 'SPCDF']
         mrc, merr, model = run_model_lines(ctx, [model_line(line.split()[0], int(line.split()[1]), got[0], ops)], 'replay')
         print('model:         ', model.get(line.split()[0]))
     print('oracle:', res)
